@@ -132,5 +132,5 @@ def fingerprint(o, _depth=0):
     d = getattr(o, "__dict__", None)
     if isinstance(d, dict) and not callable(o):
         return ("obj", type(o).__name__,
-                tuple((k, fingerprint(v, _depth + 1)) for k, v in sorted(d.items()) if not k.startswith("__")))
+                tuple((k, fingerprint(v, _depth + 1)) for k, v in sorted(d.items()) if not k.startswith("_")))       # public attributes
     return ("id", type(o).__name__, id(o))
